@@ -108,6 +108,8 @@ var c04Mutants = []Mutant{
 }
 
 func runC04(p *chk.Prog, r *chk.Report) {
+	// the advertisements applied are those of the pool that owns the addresses now (POOL-CURRENT, shared with C09)
+	c09PoolCurrent(p, r)
 	handlerReadonlyRule(p, r)
 	c09Exit(p, r)
 	membershipRule(p, r)
